@@ -342,4 +342,174 @@ theorem parse_render (p : P64) (hw : whole p) (hs : small p) :
       rw [if_neg (by simp), if_neg (by simp)]
       exact hbody true
 
+/-! ## Normalisation of a period with whole fields -/
+
+theorem mf_id (p : P64) (hy : p.years % 10 = 0) (hmo : p.months % 10 = 0) (hd : p.days % 10 = 0)
+    (hh : p.hours % 10 = 0) (hmi : p.minutes % 10 = 0) : moveFractionToRight p = p := by
+  have e1 : mfYears p = p := by unfold mfYears; rw [if_neg (by omega)]
+  have e2 : mfMonths p = p := by unfold mfMonths; rw [if_neg (by omega)]
+  have e3 : mfDays p = p := by unfold mfDays; rw [if_neg (by omega)]
+  have e4 : mfHours p = p := by unfold mfHours; rw [if_neg (by omega)]
+  have e5 : mfMinutes p = p := by unfold mfMinutes; rw [if_neg (by omega)]
+  unfold moveFractionToRight
+  rw [e1, e2, e3, e4, e5]
+
+/-- `rippleUp` on a period whose seconds and minutes are below 60, months below 12, and whose days stay
+    within `int16` after the hours above 3220 have been moved into them -/
+theorem rippleUp_low (y mo d h mi sec : Nat) (neg : Bool) (hs : sec < 600) (hmi : mi < 600)
+    (hmo : mo < 120) (hd : d ≤ 32760) (hh : h ≤ 32204) :
+    rippleUp ⟨y, mo, d, h, mi, sec, neg⟩ = ⟨y, mo, d, h, mi, sec, neg⟩ := by
+  unfold rippleUp
+  simp only [P64.mk.injEq]
+  have a1 : sec / 600 = 0 := by omega
+  have a2 : sec % 600 = sec := by omega
+  have a3 : mi / 600 = 0 := by omega
+  have a4 : mi % 600 = mi := by omega
+  simp only [a1, a2, a3, a4, Nat.zero_mul, Nat.add_zero]
+  have c1 : ¬ h > 32204 := by omega
+  simp only [if_neg c1]
+  have c2 : ¬ d > 32760 := by omega
+  simp only [if_neg c2]
+  repeat' constructor
+  all_goals first | rfl | omega
+
+theorem rippleUp_high (y mo h mi sec : Nat) (neg : Bool) (hs : sec < 600) (hmi : mi < 600)
+    (hmo : mo < 120) (hh : 32204 < h) (hh2 : h ≤ 32760) :
+    rippleUp ⟨y, mo, 0, h, mi, sec, neg⟩ = ⟨y, mo, h / 240 * 10, h % 240, mi, sec, neg⟩ := by
+  unfold rippleUp
+  simp only [P64.mk.injEq]
+  have a1 : sec / 600 = 0 := by omega
+  have a2 : sec % 600 = sec := by omega
+  have a3 : mi / 600 = 0 := by omega
+  have a4 : mi % 600 = mi := by omega
+  simp only [a1, a2, a3, a4, Nat.zero_mul, Nat.add_zero, Nat.zero_add]
+  have c1 : h > 32204 := hh
+  simp only [if_pos c1]
+  have c2 : ¬ h / 240 * 10 > 32760 := by omega
+  simp only [if_neg c2]
+  repeat' constructor
+  all_goals first | rfl | omega
+
+theorem toPeriod_ok (q : P64) (h : q.years ≤ 32767 ∧ q.months ≤ 32767 ∧ q.days ≤ 32767 ∧ q.hours ≤ 32767 ∧
+    q.minutes ≤ 32767 ∧ q.seconds ≤ 32767) :
+    toPeriod q = some { q with neg := q.neg && !q.allZero } := by
+  unfold toPeriod
+  rw [if_neg (by omega)]
+
+theorem approxAbs_lift (p : Dur.Period) (neg : Bool) :
+    approxAbs (lift p neg) = Dur.approx p * 100000000 := by
+  simp only [approxAbs, lift, Dur.approx, Dur.unitsPerHour, Dur.unitsPerMinute]
+  omega
+
+/-- what is left of a period with whole fields after normalisation and narrowing: the same duration -/
+theorem norm_whole (y mo d h mi sec : Nat) (neg : Bool) (hy : y % 10 = 0) (hmo : mo % 10 = 0)
+    (hd : d % 10 = 0) (hh : h % 10 = 0) (hmi : mi % 10 = 0) (bs : sec < 600) (bmi : mi < 600)
+    (bmo : mo < 120) (by' : y ≤ 32767) (bd : d ≤ 32760) (bh : h ≤ 32204 ∨ (d = 0 ∧ h ≤ 32760)) :
+    ∃ q, toPeriod (normalise ⟨y, mo, d, h, mi, sec, neg⟩) = some q ∧
+      approxAbs q = approxAbs ⟨y, mo, d, h, mi, sec, neg⟩ ∧ q.neg = (neg && !q.allZero) := by
+  by_cases c : h ≤ 32204
+  · unfold normalise
+    rw [rippleUp_low y mo d h mi sec neg bs bmi bmo bd c, mf_id _ hy hmo hd hh hmi,
+      toPeriod_ok _ (by simp only; omega)]
+    exact ⟨_, rfl, rfl, rfl⟩
+  · have hd0 : d = 0 := by omega
+    subst hd0
+    unfold normalise
+    rw [rippleUp_high y mo h mi sec neg bs bmi bmo (by omega) (by omega),
+      mf_id _ hy hmo (by simp only; omega) (by simp only; omega) hmi, toPeriod_ok _ (by simp only; omega)]
+    refine ⟨_, rfl, ?_, rfl⟩
+    simp only [approxAbs]; omega
+
+def maxUnits : Nat := 92233720369
+
+/-- the text written for `n * 100 ms` (any duration an `int64` holds) is read back as the period
+    `NewOf` built, up to normalisation: same `DurationApprox` -/
+theorem norm_newOf (n : Nat) (hn : n < maxUnits) (neg : Bool) :
+    ∃ q, toPeriod (normalise (lift (Dur.newOf n) neg)) = some q ∧
+      approxAbs q = Dur.approx (Dur.newOf n) * 100000000 ∧ q.neg = (neg && !q.allZero) := by
+  rw [← approxAbs_lift (Dur.newOf n) neg]
+  unfold maxUnits at hn
+  unfold Dur.newOf
+  simp only [Dur.unitsPerHour, Dur.unitsPerMinute]
+  by_cases c1 : n / 36000 < 3277
+  · simp only [c1, ↓reduceIte, lift]
+    exact norm_whole _ _ _ _ _ _ neg (by omega) (by omega) (by omega) (by omega) (by omega) (by omega)
+      (by omega) (by omega) (by omega) (by omega) (by omega)
+  · by_cases c2 : n / 36000 / 24 < 3277
+    · simp only [c1, c2, ↓reduceIte, lift]
+      exact norm_whole _ _ _ _ _ _ neg (by omega) (by omega) (by omega) (by omega) (by omega) (by omega)
+        (by omega) (by omega) (by omega) (by omega) (by omega)
+    · simp only [c1, c2, ↓reduceIte, Dur.newOfLong, lift]
+      exact norm_whole _ _ _ _ _ _ neg (by omega) (by omega) (by omega) (by omega) (by omega) (by omega)
+        (by omega) (by omega) (by omega) (by omega) (by omega)
+
+theorem approx_newOf_le (n : Nat) : Dur.approx (Dur.newOf n) ≤ n := by
+  unfold Dur.newOf
+  simp only [Dur.unitsPerHour, Dur.unitsPerMinute]
+  by_cases c1 : n / 36000 < 3277
+  · simp only [c1, ↓reduceIte, Dur.approx, Dur.unitsPerHour, Dur.unitsPerMinute]; omega
+  · by_cases c2 : n / 36000 / 24 < 3277
+    · simp only [c1, c2, ↓reduceIte, Dur.approx, Dur.unitsPerHour, Dur.unitsPerMinute]; omega
+    · simp only [c1, c2, ↓reduceIte, Dur.newOfLong, Dur.approx, Dur.unitsPerHour, Dur.unitsPerMinute]; omega
+
+theorem approxAbs_allZero (q : P64) (h : q.allZero = true) : approxAbs q = 0 := by
+  obtain ⟨h1, h2, h3, h4, h5, h6⟩ := (allZero_iff q).1 h
+  simp [approxAbs, h1, h2, h3, h4, h5, h6]
+
+theorem wrap64_id (x : Int) (h1 : -9223372036854775808 ≤ x) (h2 : x < 9223372036854775808) :
+    wrap64 x = x := by
+  unfold wrap64; omega
+
+theorem newOf64_eq (ns : Int) : newOf64 ns =
+    lift (Dur.newOf (ns.natAbs / 100000000))
+      (decide (ns < 0) && !(lift (Dur.newOf (ns.natAbs / 100000000)) false).allZero) := rfl
+
+theorem whole_lift (p : Dur.Period) (neg : Bool) : whole (lift p neg) := by
+  simp only [whole, lift]; omega
+
+/-- TEXT LEVEL REFINES FIELD LEVEL, all durations of an `int64`: the text `NewDurationType` writes is read
+    back by `GetTimeDuration` without error as exactly what the field-level model `Spine.Dur` computes
+    (`DurationApprox (NewOf d)`): rendering and parsing in between lose nothing. -/
+theorem getTimeDuration_newDurationType (ns : Int) (h : ns.natAbs / 100000000 < maxUnits) :
+    getTimeDuration (newDurationType ns) = some (Dur.roundTripNs ns) := by
+  unfold getTimeDuration newDurationType
+  rw [newOf64_eq]
+  generalize hneg : (decide (ns < 0) && !(lift (Dur.newOf (ns.natAbs / 100000000)) false).allZero) = neg'
+  have hsm : small (lift (Dur.newOf (ns.natAbs / 100000000)) neg') := by
+    have := approx_newOf_le (ns.natAbs / 100000000)
+    have e := approxAbs_lift (Dur.newOf (ns.natAbs / 100000000)) neg'
+    unfold maxUnits at h
+    simp only [approxAbs] at e
+    simp only [small]
+    omega
+  rw [parse_render _ (whole_lift _ _) hsm]
+  obtain ⟨q, hq, ha, hn⟩ := norm_newOf _ h neg'
+  rw [hq]
+  simp only [Option.some.injEq]
+  have hle := approx_newOf_le (ns.natAbs / 100000000)
+  unfold maxUnits at h
+  unfold approxNs Dur.roundTripNs
+  rw [ha]
+  by_cases c : ns < 0
+  · rw [if_pos c]
+    by_cases cq : q.neg = true
+    · rw [if_pos cq, wrap64_id _ (by omega) (by omega)]
+    · rw [if_neg cq]
+      have hz : Dur.approx (Dur.newOf (ns.natAbs / 100000000)) * 100000000 = 0 := by
+        by_cases cn : neg' = true
+        · have : q.allZero = true := by
+            rw [hn, cn] at cq
+            simpa using cq
+          rw [← ha]; exact approxAbs_allZero q this
+        · have : (lift (Dur.newOf (ns.natAbs / 100000000)) false).allZero = true := by
+            rw [← hneg] at cn
+            simpa [c] using cn
+          rw [← approxAbs_lift _ false]; exact approxAbs_allZero _ this
+      rw [hz]; rfl
+  · rw [if_neg c]
+    have cq : ¬ q.neg = true := by
+      rw [hn, ← hneg]
+      simp [c]
+    rw [if_neg cq, wrap64_id _ (by omega) (by omega)]
+
 end Spine.DurText
